@@ -96,7 +96,7 @@ def idx_arg(rng, n):
 
 
 def opt_idx(rng, n):
-    return rng.choice([None, 0, 1, -1, n, n + 2, -n, rng.randint(-3, n + 1)])
+    return rng.choice([None, 0, 1, -1, n, n + 2, n + 7, -n, -n - 4, rng.randint(-3, n + 1)])
 
 
 def gen_op(rng, t, state, root):
@@ -169,7 +169,8 @@ def gen_op(rng, t, state, root):
     if c < 0.70:
         return dict(base, op="setitem", i=i, idx=idx_arg(rng, n), x=scalar_arg(rng, ft))
     if c < 0.82:
-        m = rng.choice([0, 1, 2, lim + 1])
+        # lengths around what still fits: the limit check of a slice assignment counts the elements it replaces
+        m = rng.choice([0, 1, 2, max(0, lim - n), max(0, lim - n + 1), lim, lim + 1, lim + 2])
         return dict(base, op="setslice", i=i, a=opt_idx(rng, n), b=opt_idx(rng, n), step=rng.choice([None, None, None, None, 2, -1]), x=seq(m))
     if c < 0.90:
         return dict(base, op="delitem", i=i, idx=idx_arg(rng, n))
